@@ -136,8 +136,8 @@ let () =
                    je_data = JObj (List.filter_map (fun (k, v) -> if List.mem_assoc k sc then None else Some (k, to_js v)) env) } in
         let (j, _) = sgen mode buf [sc] n cs in
         let text = render_chunks is_print_tbl (sprint (S O) j) in
-        let so = (match sout ij mode go_print_text envf cs with Some (t, _) -> hex_of_bstr t | None -> "none") in
-        let ex = (match js_exec je j with
+        let so = (match sout ij mode go_print_text (fun _ -> None) (fun _ _ -> None) envf cs with Some (t, _) -> hex_of_bstr t | None -> "none") in
+        let ex = (match js_exec (fun _ _ _ -> OutOfModel) je j with
                   | Ok je' -> ["ok"; hex_of_string ("[" ^ String.concat "," (List.map (fun (k, v) -> "[" ^ json_str k ^ "," ^ json_of v ^ "]") je'.je_vars) ^ "]")]
                   | Err m -> ["err"; hex_of_bstr m]
                   | _ -> ["oom"]) in
